@@ -1,4 +1,4 @@
-import BoltonsVerif.C14.Proofs
+import BoltonsVerif.C14.StrDelims
 /-
 C14 — property theorems for the model of the `boltons.strutils` encoders.
 
@@ -95,6 +95,190 @@ theorem cmd_injective (a b : List Str) (ha : NoNul a) (hb : NoNul b) (h : args2c
   have h1 := cmd_roundtrip .modern a ha
   rw [h, cmd_roundtrip .modern b hb] at h1
   exact h1.symm
+
+/-! ### acceptance: ANY text that reads back as the arguments is a correct quoting (round 3)
+
+The statement constrains how the text is READ, not the text.  `shAccepts t args` (the reference POSIX
+lexer reads `t` as exactly `args`, nothing expanded) and `crtAccepts t args` (the MS C runtime rules, all
+three variants, read `t` as exactly `args`) are that clause for an arbitrary text `t`; the correspondence
+check evaluates them on the text the implementation produced.  The theorems below: the model's own
+quoting is accepted; acceptance determines the arguments; acceptance is compositional; a whole syntactic
+class of quotings (pieces; any valid splice for an embedded single quote; any superset of the
+"needs double quotes" predicate) is accepted. -/
+
+theorem sh_accepts_iff (t : Str) (args : List Str) : shAccepts t args = true ↔ shSplit t = some args := by
+  simp [shAccepts]
+
+theorem crt_accepts_iff (t : Str) (args : List Str) :
+    crtAccepts t args = true ↔ ∀ v, crtSplit v t = args := by
+  simp only [crtAccepts, Bool.and_eq_true, beq_iff_eq]
+  constructor
+  · rintro ⟨⟨h1, h2⟩, h3⟩ v; cases v <;> assumption
+  · intro h; exact ⟨⟨h _, h _⟩, h _⟩
+
+/-- the text the model of `args2sh` writes is accepted -/
+theorem sh_model_accepted (args : List Str) (h : NoNul args) : shAccepts (args2sh args) args = true :=
+  (sh_accepts_iff _ _).2 (sh_roundtrip args h)
+
+/-- the text the model of `args2cmd` writes is accepted -/
+theorem cmd_model_accepted (args : List Str) (h : NoNul args) : crtAccepts (args2cmd args) args = true :=
+  (crt_accepts_iff _ _).2 (fun v => cmd_roundtrip v args h)
+
+/-- a text is a correct quoting of at most one argument list -/
+theorem sh_accepts_unique (t : Str) (a b : List Str) (ha : shAccepts t a = true) (hb : shAccepts t b = true) :
+    a = b := by
+  rw [sh_accepts_iff] at ha hb
+  rw [ha] at hb
+  exact Option.some.inj hb
+
+theorem crt_accepts_unique (t : Str) (a b : List Str) (ha : crtAccepts t a = true)
+    (hb : crtAccepts t b = true) : a = b := by
+  rw [crt_accepts_iff] at ha hb
+  rw [← ha .modern, ← hb .modern]
+
+/-- hence EVERY encoder whose output is accepted is injective - whatever text it chooses -/
+theorem sh_accepted_encoder_injective (enc : List Str → Str)
+    (h : ∀ args, NoNul args → shAccepts (enc args) args = true)
+    (a b : List Str) (ha : NoNul a) (hb : NoNul b) (e : enc a = enc b) : a = b :=
+  sh_accepts_unique (enc a) a b (h a ha) (e ▸ h b hb)
+
+theorem crt_accepted_encoder_injective (enc : List Str → Str)
+    (h : ∀ args, NoNul args → crtAccepts (enc args) args = true)
+    (a b : List Str) (ha : NoNul a) (hb : NoNul b) (e : enc a = enc b) : a = b :=
+  crt_accepts_unique (enc a) a b (h a ha) (e ▸ h b hb)
+
+/-- acceptance is compositional: accepted texts joined by single blanks are accepted for the
+    concatenated argument lists (so a quoting may be judged one argument at a time) -/
+theorem sh_accepts_join (pas : List (Str × List Str)) (h : ∀ pa ∈ pas, shAccepts pa.1 pa.2 = true) :
+    shAccepts (join [' '] (pas.map (·.1))) (pas.map (·.2)).flatten = true :=
+  (sh_accepts_iff _ _).2 (shSplit_join pas (fun pa hpa => (sh_accepts_iff _ _).1 (h pa hpa)))
+
+example : shAccepts (join [' '] ["'a b'".toList, "c\\ d e".toList]) ["a b".toList, "c d".toList, "e".toList] = true := by
+  decide +kernel
+
+/-- the piece grammar: a word written as a non-empty sequence of pieces - `'…'` (no `'`), `\c`
+    (c not a newline), `"…"` (no `"` `\` `$` backquote), a non-empty bare run of inert characters - is
+    read as the concatenation of the piece values; words separated by single blanks -/
+theorem sh_pieces_sound (ws : List (List ShPiece)) (h : ∀ w ∈ ws, wordOk w = true) :
+    shAccepts (join [' '] (ws.map wordRender)) (ws.map wordValue) = true :=
+  (sh_accepts_iff _ _).2 (sh_pieces_sound_aux ws h)
+
+example : wordOk [.sgl "a $b".toList, .esc '\'', .dbl "c'* d".toList, .bare "e=f".toList] = true := by
+  decide +kernel
+example : wordRender [.sgl "a $b".toList, .esc '\'', .dbl "c'* d".toList, .bare "e=f".toList] =
+    "'a $b'\\'\"c'* d\"e=f".toList := by decide +kernel
+example : wordValue [.sgl "a $b".toList, .esc '\'', .dbl "c'* d".toList, .bare "e=f".toList] =
+    "a $b'c'* de=f".toList := by decide +kernel
+
+/-- `args2sh` with ANY splice for an embedded single quote that has the shape
+    `'` + pieces denoting one `'` + `'` (decidable side condition `spliceOk`), and ANY predicate `bare`
+    that leaves only arguments made of inert characters unquoted, round-trips -/
+theorem sh_roundtrip_with (bare : Str → Bool) (hb : ∀ a, bare a = true → ∀ c ∈ a, shLiteral c = true)
+    (splice : Str) (ps : List ShPiece) (hs : spliceOk splice ps = true)
+    (args : List Str) (h : NoNul args) :
+    shAccepts (args2shWith bare splice args) args = true :=
+  (sh_accepts_iff _ _).2 (sh_roundtrip_with_aux bare hb splice ps hs args h)
+
+-- the splice of the code as it is (`'"'"'`), the backslash splice (`'\''`), and one that is refused
+example : spliceOk "'\"'\"'".toList [.dbl [sq]] = true := by decide +kernel
+example : spliceOk "'\\''".toList [.esc sq] = true := by decide +kernel
+example : spliceOk "\\'".toList [] = false := by decide +kernel
+
+/-- translator obligations (re-proved against the tables regenerated from the current source): the text the
+    code splices in for an embedded single quote is a valid way of writing one (`spliceOk`, with the piece
+    decomposition proposed by the translator), and the class of characters that make `args2cmd` wrap an
+    argument in double quotes contains blank and tab -/
+theorem sh_splice_table_sound : spliceOk sqSplice splicePieces = true := spliceTable_ok
+
+theorem cmd_quote_table_sound (a : Str) (h : needQuote a = true) : cmdNeedQuote a = true :=
+  cmdNeedQuote_of_needQuote a h
+
+/-- the model's `args2sh` is the instance with the regenerated splice and the regenerated safe-character class -/
+theorem args2sh_is_instance (args : List Str) : args2sh args = args2shWith allSafe sqSplice args := rfl
+
+-- whatever the regenerated splice is, a quote inside an argument comes back as that quote
+example : shSplit (args2sh ["it's".toList, "''".toList]) = some ["it's".toList, "''".toList] := by decide +kernel
+
+/-- the same encoder with the backslash splice `'\''` (what `shlex.quote`-style code writes) is correct too -/
+theorem sh_roundtrip_backslash_splice (args : List Str) (h : NoNul args) :
+    shAccepts (args2shWith allSafe [sq, bsl, sq, sq] args) args = true :=
+  sh_roundtrip_with allSafe allSafe_literal _ [.esc sq] (by decide +kernel) args h
+
+example : args2shWith (fun _ => false) [sq, bsl, sq, sq] ["it's".toList, "x".toList] = "'it'\\''s' 'x'".toList := by
+  decide +kernel
+
+/-- `args2cmd` with ANY "wrap in double quotes" predicate that is true at least for empty arguments and
+    arguments containing a blank or a tab round-trips, in every variant of the CRT rules -/
+theorem cmd_roundtrip_anyquote (qp : Str → Bool) (hq : ∀ a, needQuote a = true → qp a = true)
+    (args : List Str) (h : NoNul args) : crtAccepts (args2cmdQ qp args) args = true :=
+  (crt_accepts_iff _ _).2 (fun v => cmd_roundtrip_anyquote_aux v qp hq args h)
+
+/-- the model's `args2cmd` is the instance with the regenerated predicate -/
+theorem args2cmd_is_instance (args : List Str) : args2cmd args = args2cmdQ cmdNeedQuote args :=
+  args2cmd_eq_Q args
+
+example : args2cmdQ (fun a => needQuote a || a.contains '&') ["x&y".toList, "tail\\".toList, "a&\\".toList] =
+    "\"x&y\" tail\\ \"a&\\\\\"".toList := by decide +kernel
+-- the hypothesis is needed: an unquoted blank splits the argument
+example : crtSplit .modern (args2cmdQ (fun _ => false) ["a b".toList]) = ["a".toList, "b".toList] := by
+  decide +kernel
+
+/-- `escape_shell_args`: the style (and, for a falsy style, the platform) selects the reader, and the text
+    is accepted by that reader -/
+theorem esa_accepted (style : Str) (w : Bool) (args : List Str) (h : NoNul args) :
+    match styleOf style w with
+    | some .sh => ∃ t, escapeShellArgs style args w = some t ∧ shAccepts t args = true
+    | some .cmd => ∃ t, escapeShellArgs style args w = some t ∧ crtAccepts t args = true
+    | none => escapeShellArgs style args w = none := by
+  simp only [styleOf, escapeShellArgs]
+  generalize (if style.isEmpty = true then (if w = true then ['c', 'm', 'd'] else ['s', 'h']) else style) = st
+  by_cases h1 : st = ['s', 'h']
+  · simp only [h1, if_true]
+    exact ⟨_, rfl, sh_model_accepted args h⟩
+  · by_cases h2 : st = ['c', 'm', 'd']
+    · subst h2
+      simp only [if_true]
+      exact ⟨_, by simp, cmd_model_accepted args h⟩
+    · simp only [h1, h2, if_false]
+
+/-! ### the documented MS C runtime rules hold for the reference parser `crt`
+
+(the five rules quoted in the source comment of `args2cmd`; `crt v inArg inQuote pendingBackslashes cur rest`) -/
+
+/-- "2n backslashes followed by a quotation mark produce n backslashes, and the quotation mark toggles
+    quoting" (`cs` does not start with a second quotation mark while inside quotes: the `""` rule) -/
+theorem crt_rule_2n_backslashes_quote (v : CrtVariant) (ia q : Bool) (n : Nat) (cur cs : Str)
+    (hcs : q = false ∨ cs.head? ≠ some dq) :
+    crt v ia q 0 cur (bs (2 * n) ++ dq :: cs) = crt v true (!q) 0 (cur ++ bs n) cs := by
+  cases n with
+  | zero => simpa [bs_zero] using crt_dq_even v ia q 0 cur cs (by omega) hcs
+  | succ k =>
+    rw [crt_bs_run _ _ _ _ _ _ _ (Or.inr (by omega)), crt_dq_even _ _ _ _ _ _ (by omega) hcs]
+    congr 3; omega
+
+/-- "2n+1 backslashes followed by a quotation mark produce n backslashes and a literal quotation mark" -/
+theorem crt_rule_2n1_backslashes_quote (v : CrtVariant) (ia q : Bool) (n : Nat) (cur cs : Str) :
+    crt v ia q 0 cur (bs (2 * n + 1) ++ dq :: cs) = crt v true q 0 (cur ++ bs n ++ [dq]) cs := by
+  rw [crt_bs_run _ _ _ _ _ _ _ (Or.inr (by omega)), crt_dq_odd _ _ _ _ _ _ (by omega)]
+  congr 4; omega
+
+/-- "backslashes are interpreted literally, unless they immediately precede a quotation mark" -/
+theorem crt_rule_backslashes_literal (v : CrtVariant) (ia q : Bool) (n : Nat) (cur : Str) (c : Char) (cs : Str)
+    (h0 : c ≠ nul) (h1 : c ≠ bsl) (h2 : c ≠ dq) (h3 : isBlank c = false) (hn : 0 < n) :
+    crt v ia q 0 cur (bs n ++ c :: cs) = crt v true q 0 (cur ++ bs n ++ [c]) cs := by
+  rw [crt_bs_run _ _ _ _ _ _ _ (Or.inr hn), crt_plain _ _ _ _ _ _ _ h0 h1 h2 (Or.inl h3)]
+  simp
+
+/-- "arguments are delimited by white space" outside quotes, and a blank inside quotes is literal -/
+theorem crt_rule_blank (v : CrtVariant) (n : Nat) (cur cs : Str) :
+    crt v true false n cur (' ' :: cs) = (cur ++ bs n) :: crt v false false 0 [] cs ∧
+    crt v true true n cur (' ' :: cs) = crt v true true 0 (cur ++ bs n ++ [' ']) cs :=
+  ⟨crt_blank_end v n cur cs,
+   crt_plain v true true n cur ' ' cs (by decide) (by decide) (by decide) (Or.inr ⟨rfl, rfl⟩)⟩
+
+example : crtSplit .documented "a\\\\\\\"b \"c d\\\\\" e\\f".toList =
+    ["a\\\"b".toList, "c d\\".toList, "e\\f".toList] := by decide +kernel
+
 
 /-! ### integer ranges -/
 
@@ -320,6 +504,148 @@ theorem int_ranges_of_format (d rd : Char) (ok : DelimOK d rd) (L : List Nat) (s
   exact format_canonical_unique_delims d rd L sp rs h2 (fun x => by rw [h3, mem_sortDedup])
 
 example : intRanges "1; 3; 5:8".toList ';' ':' = some [(1, 1), (3, 3), (5, 8)] := by decide +kernel
+
+/-! ### exactly when the integer-list readers raise ValueError (round 3)
+
+(the statement is silent about malformed range strings; these theorems pin down the error behaviour of the
+model, which the correspondence compares with the code's on every text over digits, the two delimiters and
+blanks: `none` = ValueError) -/
+
+/-- `int(x)` (on the model's alphabet) fails exactly on a blank-only / empty string or one with a non-digit inside -/
+theorem int_literal_valueError_iff (s : Str) :
+    pyInt? s = none ↔ (strip s = [] ∨ ∃ c ∈ strip s, isDigit c = false) := pyInt_eq_none_iff s
+
+/-- a token fails exactly when it is a range token one of whose parts is not an integer, or a non-empty
+    non-range token that is not an integer (the EMPTY token is skipped, not an error) -/
+theorem parse_token_valueError_iff (rd : Char) (t : Str) :
+    parseTok rd t = none ↔
+      ((rd ∈ t ∧ ∃ p ∈ splitOn rd t, pyInt? p = none) ∨ (rd ∉ t ∧ t ≠ [] ∧ pyInt? t = none)) :=
+  parseTok_eq_none_iff rd t
+
+/-- `parse_int_list` raises exactly when some token of the stripped text fails; no other source of errors -/
+theorem parse_valueError_iff (s : Str) (d rd : Char) :
+    parseIntList s d rd = none ↔ ∃ t ∈ splitOn d (strip s), parseTok rd t = none :=
+  parseIntList_eq_none_iff s d rd
+
+/-- `complement_int_list` and `int_ranges_from_int_list` raise exactly when `parse_int_list` does
+    (whatever the window) -/
+theorem complement_valueError_iff (s : Str) (a : Int) (e : Option Int) (d rd : Char) :
+    complementIntList s a e d rd = none ↔ parseIntList s d rd = none := complement_eq_none_iff s a e d rd
+
+theorem int_ranges_valueError_iff (s : Str) (d rd : Char) :
+    intRanges s d rd = none ↔ parseIntList s d rd = none := intRanges_eq_none_iff s d rd
+
+example : parseIntList "1,,3".toList = some [1, 3] := by decide +kernel
+example : parseIntList "1,x".toList = none := by decide +kernel
+example : parseIntList "1-,3".toList = none := by decide +kernel
+example : parseIntList " 1 , 2-4 \n".toList = some [1, 2, 3, 4] := by decide +kernel
+example : parseIntList "1 2".toList = none := by decide +kernel
+example : parseIntList "3-1-2".toList = some [1, 2, 3] := by decide +kernel
+
+/-! ### multi-character delimiters (round 3)
+
+`delim` / `range_delim` may be arbitrary non-empty strings (`'; '`, `' to '`, `'..'`).  `formatIntListS`,
+`parseIntListS`, `complementIntListS`, `intRangesS` model the functions with string delimiters (`str.split`
+with a string separator, `range_delim in x`); for one-character strings they coincide with the functions above
+(`strdelims_extend_chars`).  The clauses hold for every pair with `DelimOKS d rd`: both non-empty, the first
+character of `delim` is not a digit, not a space and does not occur in `range_delim`, the first character of
+`range_delim` is not a digit - and not a space where `delim_space=True` is used (hypothesis `hsp`). -/
+
+/-- round trip for every admissible pair of string delimiters, with or without `delim_space` -/
+theorem int_roundtrip_strdelims (d rd : Str) (ok : DelimOKS d rd) (L : List Nat) (sp : Bool)
+    (hsp : sp = true → rd.head? ≠ some ' ') :
+    parseIntListS (formatIntListS L sp d rd) d rd = some (sortDedup L) :=
+  parse_formatS d rd ok L sp hsp
+
+example : DelimOKS "; ".toList " to ".toList := by decide
+example : DelimOKS ",".toList "..".toList := by decide
+example : ¬ DelimOKS "-x".toList "-".toList := by decide
+example : ¬ DelimOKS "".toList "-".toList := by decide
+example : formatIntListS [8, 1, 3, 5, 7, 6, 3, 10, 11, 15] false "; ".toList "..".toList =
+    "1; 3; 5..8; 10..11; 15".toList := by decide +kernel
+-- the hypothesis is needed: a delimiter whose first character occurs in the range delimiter cuts range tokens apart
+example : ¬ DelimOKS "-".toList "->".toList := by decide
+example : parseIntListS (formatIntListS [1, 2, 3, 7] false "-".toList "->".toList) "-".toList "->".toList = none := by
+  decide +kernel
+
+/-- canonical output for every pair of string delimiters (no hypothesis needed) -/
+theorem format_canonical_strdelims (d rd : Str) (L : List Nat) (sp : Bool) :
+    ∃ rs, formatIntListS L sp d rd = join (if sp then d ++ [' '] else d) (rs.map (renderRangeS rd)) ∧
+      Canon rs ∧ ∀ x, Covers rs x ↔ x ∈ L :=
+  ⟨runs (isort L), formatS_eq d rd L sp, (runs_isort_spec L).1, (runs_isort_spec L).2⟩
+
+/-- ... and it is THE canonical rendering -/
+theorem format_canonical_unique_strdelims (d rd : Str) (L : List Nat) (sp : Bool) (rs : List (Nat × Nat))
+    (hc : Canon rs) (hm : ∀ x, Covers rs x ↔ x ∈ L) :
+    formatIntListS L sp d rd = join (if sp then d ++ [' '] else d) (rs.map (renderRangeS rd)) := by
+  obtain ⟨rs', h1, h2, h3⟩ := format_canonical_strdelims d rd L sp
+  rw [h1, canon_unique rs' rs h2 hc (fun x => by rw [h3, hm])]
+
+/-- every well-formed range string written with admissible string delimiters is read as the sorted list of
+    the integers it denotes -/
+theorem parse_range_string_strdelims (d rd : Str) (ok : DelimOKS d rd) (sp : Bool)
+    (hsp : sp = true → rd.head? ≠ some ' ') (rs : List (Nat × Nat)) (h : ∀ r ∈ rs, r.1 ≤ r.2) :
+    ∃ R, parseIntListS (join (if sp then d ++ [' '] else d) (rs.map (renderRangeS rd))) d rd = some R ∧
+      R.Pairwise (· ≤ ·) ∧ ∀ x, x ∈ R ↔ Covers rs x :=
+  ⟨isort (expand rs), parse_renderS d rd ok sp hsp rs h, isort_sorted _, fun x => by rw [mem_isort, mem_expand]⟩
+
+/-- `complement_int_list` with string delimiters: exactly the missing integers of the window, canonical -/
+theorem complement_exact_strdelims (d rd : Str) (ok : DelimOKS d rd) (s : Str) (l : List Nat) (a e : Int)
+    (h : parseIntListS s d rd = some l) :
+    ∃ t R, complementIntListS s a (some e) d rd = some t ∧ parseIntListS t d rd = some R ∧
+      R.Pairwise (· < ·) ∧ (∀ x : Nat, x ∈ R ↔ (a ≤ (x : Int) ∧ (x : Int) < e ∧ x ∉ l)) ∧
+      ∃ rs, t = join d (rs.map (renderRangeS rd)) ∧ Canon rs := by
+  let M := (List.range e.toNat).filter fun x => !l.contains x && !decide ((x : Int) < a)
+  refine ⟨formatIntListS M false d rd, sortDedup M, by simp only [complementIntListS, h, M],
+    int_roundtrip_strdelims d rd ok M false (by simp), sortDedup_sorted M, fun x => ?_, runs (isort M),
+    by simpa using formatS_eq d rd M false, (runs_isort_spec M).1⟩
+  rw [mem_sortDedup]
+  simp only [M]
+  simp only [List.mem_filter, List.mem_range, Bool.and_eq_true, Bool.not_eq_true',
+    List.contains_eq_mem, decide_eq_false_iff_not]
+  constructor
+  · rintro ⟨h1, h2, h3⟩; exact ⟨by omega, by omega, by simpa using h2⟩
+  · rintro ⟨h1, h2, h3⟩; exact ⟨by omega, by simpa using h3, by omega⟩
+
+example : complementIntListS "1; 3; 5 to 8".toList 2 (some 11) "; ".toList " to ".toList =
+    some "2; 4; 9 to 10".toList := by decide +kernel
+
+/-- `int_ranges_from_int_list` with string delimiters: the maximal ranges of what the text denotes -/
+theorem int_ranges_exact_strdelims (d rd : Str) (s : Str) (l : List Nat) (h : parseIntListS s d rd = some l) :
+    ∃ rs, intRangesS s d rd = some rs ∧ Canon rs ∧ ∀ x, Covers rs x ↔ x ∈ l := by
+  have hd := intRanges_of_parseD ',' '-' (formatIntList l) (sortDedup l) (int_roundtrip_eq l)
+  refine ⟨runs (isort l), ?_, (runs_isort_spec l).1, (runs_isort_spec l).2⟩
+  have hfmt : formatIntList (sortDedup l) = formatIntList l :=
+    format_members_only _ _ (fun x => mem_sortDedup l x)
+  have hruns : runs (isort (sortDedup l)) = runs (isort l) := by
+    have h1 := format_eq (sortDedup l)
+    have h2 := format_eq l
+    rw [hfmt] at h1
+    exact canon_unique _ _ (runs_isort_spec _).1 (runs_isort_spec _).1
+      (fun x => by rw [(runs_isort_spec _).2, (runs_isort_spec _).2, mem_sortDedup])
+  simp only [intRangesS, h]
+  simp only [intRanges, int_roundtrip_eq l, hfmt] at hd
+  rw [← hruns]
+  exact hd
+
+/-- with one-character delimiters the string-delimiter functions ARE the functions of the earlier sections -/
+theorem strdelims_extend_chars (d rd : Char) (L : List Nat) (sp : Bool) (s : Str) :
+    formatIntListS L sp [d] [rd] = formatIntList L sp d rd ∧
+    parseIntListS s [d] [rd] = parseIntList s d rd :=
+  ⟨formatS_single d rd L sp, parseS_single d rd s⟩
+
+/-- translator obligation: the default `delim` / `range_delim` of the integer-list functions (read from the
+    signatures on every run) form an admissible pair, so every `_delims` theorem applies to the defaults
+    whatever they are -/
+theorem int_defaults_ok : DelimOK defaultDelim defaultRangeDelim := by decide +kernel
+
+theorem int_roundtrip_defaults (L : List Nat) (sp : Bool) :
+    parseIntList (formatIntList L sp defaultDelim defaultRangeDelim) defaultDelim defaultRangeDelim =
+      some (sortDedup L) :=
+  int_roundtrip_delims _ _ int_defaults_ok L sp
+
+example : parseIntList (formatIntList [3, 1, 2, 9] false defaultDelim defaultRangeDelim) defaultDelim defaultRangeDelim =
+    some [1, 2, 3, 9] := by decide +kernel
 
 example : parseIntList "1,3,5-8,10-11,15".toList = some [1, 3, 5, 6, 7, 8, 10, 11, 15] := by decide +kernel
 example : formatIntList [8, 1, 3, 5, 7, 6, 3, 10, 11, 15] = "1,3,5-8,10-11,15".toList := by decide +kernel
